@@ -1,0 +1,8 @@
+//go:build !verif
+
+// Package verifhook is the observation point of the verification harness (build tag "verif").
+// Without the tag every call is an empty function.
+package verifhook
+
+// At does nothing unless the project is built with the "verif" tag.
+func At(point string, a, b int) {}
